@@ -72,6 +72,8 @@ where
         let end_byte = self.end * Self::SIZE_OF_T;
         let mut acc = init;
         while byte_off < end_byte {
+            #[cfg(anydb_verif)]
+            crate::verif::access("raw_mmap:fold", &self._reader, crate::HEADER_OFFSET + byte_off, Self::SIZE_OF_T);
             acc = f(acc, unsafe { S::read_from_ptr(ptr, byte_off) });
             byte_off += Self::SIZE_OF_T;
         }
@@ -90,6 +92,8 @@ where
         let end_byte = self.end * Self::SIZE_OF_T;
         let mut acc = init;
         while byte_off < end_byte {
+            #[cfg(anydb_verif)]
+            crate::verif::access("raw_mmap:try_fold", &self._reader, crate::HEADER_OFFSET + byte_off, Self::SIZE_OF_T);
             acc = f(acc, unsafe { S::read_from_ptr(ptr, byte_off) })?;
             byte_off += Self::SIZE_OF_T;
         }
